@@ -27,6 +27,8 @@ use crate::codec::family::Family;
 use crate::error::Error;
 use crate::hll::HllType;
 use crate::hll::KEY_MASK_26;
+use crate::hll::RESIZE_DENOMINATOR;
+use crate::hll::RESIZE_NUMERATOR;
 use crate::hll::container::COUPON_EMPTY;
 use crate::hll::container::Container;
 use crate::hll::serialization::COMPACT_FLAG_MASK;
@@ -104,6 +106,15 @@ impl HashSet {
             .map_err(insufficient_data("coupon_count"))?;
         let coupon_count = coupon_count as usize;
 
+        // A hash set is grown or promoted as soon as it is more than 3/4 full, so no valid image
+        // holds more coupons than that; an overfull table would have no free slot to probe for.
+        let array_size = 1usize << lg_arr;
+        if RESIZE_DENOMINATOR as usize * coupon_count > RESIZE_NUMERATOR as usize * array_size {
+            return Err(Error::deserial(format!(
+                "coupon count {coupon_count} exceeds the load limit of a table of {array_size} slots"
+            )));
+        }
+
         if compact {
             // Compact mode: only couponCount coupons are stored
             // Create a new hash set and insert coupons one by one
@@ -119,7 +130,6 @@ impl HashSet {
             Ok(hash_set)
         } else {
             // Non-compact mode: full hash table with empty slots
-            let array_size = 1 << lg_arr;
 
             // Read entire hash table including empty slots
             let mut coupons = vec![0u32; array_size];
